@@ -203,13 +203,36 @@ func contract_consumeBytesSlice(b []byte, p pointer, wtyp protowire.Type, f *cod
 	return
 }
 
-// @ props C14
+// The eager tag loop (C06): whatever the field tables contain, it only ever advances inside its
+// input - every re-slicing of b is in bounds and the reported length is at most len(b) -
+// provided each field coder it calls reports a length within the buffer it was given
+// (fieldcontract_pointerCoderFuncs_unmarshal, proved for the leaf coders by their own contracts;
+// unmarshalExtension: trusted). It also stores only fresh slices into the message (C14 guard).
+//
+// @ props C06 C14
 // @ mode int
 // @ guard-slice-stores
-// @ nopanic
+// @ loop 1 invariant suffixOf(b, old(b)) && start == len(old(b))
 func contract_MessageInfo_unmarshalPointerEager(mi *MessageInfo, b []byte, p pointer, groupTag protowire.Number, opts unmarshalOptions) (out unmarshalOutput, err error) {
 	requires(mi != nil && p.p != nil)
 	modifiesAll()
+	ensures(imp(err == nil, 0 <= out.n && out.n <= len(b)))
+	return
+}
+
+// Table invariant of pointerCoderFuncs.unmarshal: a field coder that succeeds reports how many bytes
+// of ITS input it consumed.
+func fieldcontract_pointerCoderFuncs_unmarshal(b []byte, p pointer, wtyp protowire.Type, f *coderFieldInfo, opts unmarshalOptions) (out unmarshalOutput, err error) {
+	ensures(imp(err == nil, 0 <= out.n && out.n <= len(b)))
+	return
+}
+
+// unmarshalExtension goes through the extension registry and interface values: trusted summary.
+//
+// @ trusted
+func contract_MessageInfo_unmarshalExtension(mi *MessageInfo, b []byte, num protowire.Number, wtyp protowire.Type, exts map[int32]ExtensionField, opts unmarshalOptions) (out unmarshalOutput, err error) {
+	modifiesAll()
+	ensuresTrusted(imp(err == nil, 0 <= out.n && out.n <= len(b)))
 	return
 }
 
